@@ -13,8 +13,14 @@
    E2E_all_formats: the instance for every rendering of the frame in the five input grammars (those of C07_frontends).
    E2E_no_definition: a dispatched PGN whose payload matches no definition (no fallback): the call returns None.
    E2E_undispatched: a PGN without dispatcher — the bound definition, every payload (no Match rule is consulted).
-   E2E_claim: the address claim 60928 — message with the identity built from its fields, source map updated. *)
-From NV Require Import Base Bits Defn PyNum Fields Dispatch DispatchProofs Template Spec SpecProofs
+   E2E_claim: the address claim 60928 — message with the identity built from its fields, source map updated.
+   E2E_*_var: the same statements for EVERY definition of the class var_def (SpecVar.v: it contains the fixed-layout
+   definitions and, on today's tables, every definition owning a function — variable-length strings, fields without
+   BitOffset, BINARY with BitLengthField, INDIRECT_LOOKUP), with `spec_decode_var` (the position-threading specification,
+   C01_var) in place of `spec_decode`; on a fixed-layout definition the two expected results are equal
+   (EndToEndProofs.e2e_expected_var_simple).  E2E_claim_var is the one that applies to the real address-claim
+   definition (its deviceFunction field is an INDIRECT_LOOKUP, so it is not fixed-layout). *)
+From NV Require Import Base Bits Defn PyNum Fields Dispatch DispatchProofs Template Spec SpecProofs SpecVar SpecVarProofs
                        Header HeaderProofs PyText Wire WireProofs DecoderCtl EndToEnd EndToEndProofs.
 From NVGen Require Import GenDb GenCode GenDisp GenLookups GenDbLookups.
 From NVGen Require OblC01 OblC08.
@@ -200,6 +206,156 @@ Proof.
 Qed.
 Print Assumptions E2E_claim.
 
+(* ====================================================================================================== *)
+(* the same for every definition of the class var_def, against the position-threading specification        *)
+(* ====================================================================================================== *)
+Definition SLI := norm_ilookups db_indirect.
+Lemma C01_var_here : forall g d, In g db_groups -> In d (bound_defs g) -> var_def d = true ->
+  exists cd, find_fname (fname_of g d) code_dec = Some cd /\
+    forall p, run_ddef code_lookups code_bitlookups code_indirect p cd = spec_decode_var SL SLB SLI p d.
+Proof. intros g d Hg. exact (OblC01.C01_var g d Hg). Qed.
+
+Theorem E2E_any_entry_var : forall g d, In g db_groups -> in_scope g = true -> In d (bound_defs g) -> var_def d = true ->
+  forall ts_ok st i pgn prio src dst data comb,
+  parse_with ts_ok (e_fmt i) (e_data i) = Ok (Some (pgn, prio, src, dst, rev data, comb)) ->
+  pgn = group_pgn g -> pgn <> 60928 ->
+  (comb = true \/ tbl_is_fast code_fast pgn = Ok (Some false)) ->
+  (forall n, zlookup src (srcmap st) = Some n -> mfr_modelled n = true) ->
+  spec_select g (le_int data) = Some d ->
+  step ts_ok cfg0 st i = (st, e2e_expected_var SL SLB SLI d (le_int data) src dst prio (zlookup src (srcmap st))).
+Proof.
+  intros g d Hg Sc Hd S ts_ok st i pgn prio src dst data comb P Ep Hp Hf Hi Sel.
+  pose proof (G_ok g Hg) as G.
+  pose proof E2E_side as Sd. rewrite forallb_forall in Sd. specialize (Sd g Hg).
+  rewrite forallb_forall in Sd. specialize (Sd d (bound_defs_in g d Hd)).
+  apply andb_true_iff in Sd. destruct Sd as [Pg A]. apply Z.eqb_eq in Pg.
+  unfold step, e2e_expected_var.
+  apply (e2e_single_frame_tables_of code_dec code_disp code_ids code_fast code_lookups code_bitlookups code_indirect
+           ts_ok (spec_decode_var SL SLB SLI) g d st i pgn prio src dst data comb (spec_head_var SL SLB SLI)); try assumption.
+  exact (C01_var_here g d Hg Hd S).
+Qed.
+Print Assumptions E2E_any_entry_var.
+
+Theorem E2E_single_frame_var : forall g d, In g db_groups -> in_scope g = true -> In d (bound_defs g) -> var_def d = true ->
+  forall ts_ok st id data t pad win,
+  0 <= id < 536870912 -> bytes_ok data = true -> Z.land t 15 = zlen data ->
+  let '(pgn, src, dst, prio) := extract_header id in
+  pgn = group_pgn g -> pgn <> 60928 ->
+  tbl_is_fast code_fast pgn = Ok (Some false) ->
+  (forall n, zlookup src (srcmap st) = Some n -> mfr_modelled n = true) ->
+  spec_select g (le_int data) = Some d ->
+  step ts_ok cfg0 st {| e_fmt := WTcp; e_data := t :: be4 id ++ data ++ pad; e_win := win |}
+  = (st, e2e_expected_var SL SLB SLI d (le_int data) src dst prio (zlookup src (srcmap st))).
+Proof.
+  intros g d Hg Sc Hd S ts_ok st id data t pad win Hid Hb Ht.
+  assert (P : parse_tcp (t :: be4 id ++ data ++ pad) = Ok (target id data false))
+    by (apply parse_tcp_render; [lia | exact Ht]).
+  unfold target in P. destruct (extract_header id) as [[[pgn src] dst] prio].
+  intros Ep Hp Hf Hi Sel.
+  apply (E2E_any_entry_var g d Hg Sc Hd S ts_ok st
+           {| e_fmt := WTcp; e_data := t :: be4 id ++ data ++ pad; e_win := win |} pgn prio src dst data false);
+    [cbn [parse_with e_fmt e_data]; exact P | assumption | assumption | right; exact Hf | assumption | assumption].
+Qed.
+Print Assumptions E2E_single_frame_var.
+
+Theorem E2E_all_formats_var : forall g d, In g db_groups -> in_scope g = true -> In d (bound_defs g) -> var_def d = true ->
+  forall ts_ok st id data win,
+  0 <= id < 536870912 -> bytes_ok data = true ->
+  let '(pgn, src, dst, prio) := extract_header id in
+  pgn = group_pgn g -> pgn <> 60928 ->
+  (forall n, zlookup src (srcmap st) = Some n -> mfr_modelled n = true) ->
+  spec_select g (le_int data) = Some d ->
+  let R := (st, e2e_expected_var SL SLB SLI d (le_int data) src dst prio (zlookup src (srcmap st))) in
+  let run := fun f inp => step ts_ok cfg0 st {| e_fmt := f; e_data := inp; e_win := win |} in
+  (tbl_is_fast code_fast pgn = Ok (Some false) ->
+     forall t pad, Z.land t 15 = zlen data -> run WTcp (t :: be4 id ++ data ++ pad) = R) /\
+  (tbl_is_fast code_fast pgn = Ok (Some false) ->
+     forall b2 b3 b4 pad r, (length data + length pad = 8)%nat -> run WUsb (usb_render b2 b3 b4 id data pad r) = R) /\
+  (forall ts ptok gtok stok dtok ltok dts extra c,
+     (c = true \/ tbl_is_fast code_fast pgn = Ok (Some false)) ->
+     basic_ts ts_ok ts -> dec_tok ptok prio -> dec_tok gtok pgn -> dec_tok stok src -> dec_tok dtok dst ->
+     dec_tok ltok (zlen data) -> Forall2 (fun t b => tokval 16 t = Some b) dts data ->
+     Forall (fun t => nocomma t /\ all_ascii t = true) extra -> dts ++ extra <> [] ->
+     run (WBasic c) (basic_line ts ptok gtok stok dtok ltok dts extra) = R) /\
+  (data <> [] -> tbl_is_fast code_fast pgn = Ok (Some false) ->
+     forall ts dir idt dts tail,
+     ts_tok ts_ok 0 ts -> dir_tok dir -> tokval 16 idt = Some id ->
+     Forall2 (fun t b => tokval 16 t = Some b) dts data -> forallb is_ws tail = true ->
+     run WYd (yd_line ts dir idt dts tail) = R) /\
+  (data <> [] ->
+     forall sec ms ntok ptok dtoks tail,
+     acti_ts_ok sec ms -> tokval 16 ntok = Some (acti_build src dst prio) -> tokval 16 ptok = Some pgn ->
+     Forall2 (fun t b => length t = 2%nat /\ tokval 16 t = Some b) dtoks data -> forallb is_ws tail = true ->
+     run WActi (acti_line sec ms ntok ptok (concat dtoks) tail) = R).
+Proof.
+  intros g d Hg Sc Hd S ts_ok st id data win Hid Hb.
+  pose proof (frontends ts_ok id data Hid Hb) as F.
+  destruct (extract_header id) as [[[pgn src] dst] prio].
+  intros Ep Hp Hi Sel. cbv zeta. cbv zeta in F. destruct F as (F1 & F2 & F3 & F4 & F5).
+  pose proof (fun i comb => E2E_any_entry_var g d Hg Sc Hd S ts_ok st i pgn prio src dst data comb) as A.
+  repeat split.
+  - intros Hf t pad Ht. apply (A _ false); try assumption; [|right; exact Hf].
+    cbn [parse_with e_fmt e_data]. apply F1. exact Ht.
+  - intros Hf b2 b3 b4 pad r Hl. apply (A _ false); try assumption; [|right; exact Hf].
+    cbn [parse_with e_fmt e_data]. apply F2. exact Hl.
+  - intros ts ptok gtok stok dtok ltok dts extra c Hc H1 H2 H3 H4 H5 H6 H7 H8 H9. apply (A _ c); try assumption.
+    cbn [parse_with e_fmt e_data]. apply F3; assumption.
+  - intros Hne Hf ts dir idt dts tail H1 H2 H3 H4 H5. apply (A _ false); try assumption; [|right; exact Hf].
+    cbn [parse_with e_fmt e_data]. apply F4; assumption.
+  - intros Hne sec ms ntok ptok dtoks tail H1 H2 H3 H4 H5. apply (A _ true); try assumption; [|left; reflexivity].
+    cbn [parse_with e_fmt e_data]. apply F5; assumption.
+Qed.
+Print Assumptions E2E_all_formats_var.
+
+Theorem E2E_undispatched_var : forall g d, In g db_groups -> is_dispatched g = false -> In d (bound_defs g) -> var_def d = true ->
+  forall ts_ok st i pgn prio src dst data comb,
+  parse_with ts_ok (e_fmt i) (e_data i) = Ok (Some (pgn, prio, src, dst, rev data, comb)) ->
+  pgn = group_pgn g -> pgn <> 60928 ->
+  (comb = true \/ tbl_is_fast code_fast pgn = Ok (Some false)) ->
+  (forall n, zlookup src (srcmap st) = Some n -> mfr_modelled n = true) ->
+  step ts_ok cfg0 st i = (st, e2e_expected_var SL SLB SLI d (le_int data) src dst prio (zlookup src (srcmap st))).
+Proof.
+  intros g d Hg D Hd S ts_ok st i pgn prio src dst data comb P Ep Hp Hf Hi.
+  pose proof (G_ok g Hg) as G.
+  pose proof E2E_side as Sd. rewrite forallb_forall in Sd. specialize (Sd g Hg).
+  rewrite forallb_forall in Sd. specialize (Sd d (bound_defs_in g d Hd)).
+  apply andb_true_iff in Sd. destruct Sd as [Pg A]. apply Z.eqb_eq in Pg.
+  unfold step, e2e_expected_var.
+  apply (e2e_single_frame_tables_undispatched_of code_dec code_disp code_ids code_fast code_lookups code_bitlookups
+           code_indirect ts_ok (spec_decode_var SL SLB SLI) g d st i pgn prio src dst data comb (spec_head_var SL SLB SLI));
+    try assumption.
+  exact (C01_var_here g d Hg Hd S).
+Qed.
+Print Assumptions E2E_undispatched_var.
+
+(* the address claim: the database definition of PGN 60928 carries an INDIRECT_LOOKUP (deviceFunction, keyed by
+   deviceClass), so this — not E2E_claim — is the statement that applies to it *)
+Theorem E2E_claim_var : forall g d, In g db_groups -> group_pgn g = 60928 -> In d (bound_defs g) -> var_def d = true ->
+  forall ts_ok st i prio src dst data comb,
+  parse_with ts_ok (e_fmt i) (e_data i) = Ok (Some (60928, prio, src, dst, rev data, comb)) ->
+  (comb = true \/ tbl_is_fast code_fast 60928 = Ok (Some false)) ->
+  step ts_ok cfg0 st i
+  = let sr := claim_result st {| c_pgn := 60928; c_src := src; c_dst := dst; c_data := data; c_win := e_win i |}
+                           (spec_dmsg_var SL SLB SLI (le_int data) d) in
+    (fst sr, with_prio prio (snd sr)).
+Proof.
+  intros g d Hg Eg Hd S ts_ok st i prio src dst data comb P Hf.
+  pose proof (G_ok g Hg) as G.
+  assert (D : is_dispatched g = false).
+  { assert (A : forallb (fun g => negb (group_pgn g =? 60928) || negb (is_dispatched g)) db_groups = true)
+      by (vm_compute; reflexivity).
+    rewrite forallb_forall in A. specialize (A g Hg). rewrite Eg in A. cbn in A.
+    destruct (is_dispatched g); [discriminate | reflexivity]. }
+  pose proof E2E_side as Sd. rewrite forallb_forall in Sd. specialize (Sd g Hg).
+  rewrite forallb_forall in Sd. specialize (Sd d (bound_defs_in g d Hd)).
+  apply andb_true_iff in Sd. destruct Sd as [Pg _]. apply Z.eqb_eq in Pg.
+  unfold step, spec_dmsg_var.
+  apply (e2e_claim_tables_of code_dec code_disp code_ids code_fast code_lookups code_bitlookups code_indirect ts_ok
+           (spec_decode_var SL SLB SLI) g d st i prio src dst data comb (spec_head_var SL SLB SLI)); try assumption.
+  exact (C01_var_here g d Hg Hd S).
+Qed.
+Print Assumptions E2E_claim_var.
+
 (* ---- coverage: groups; in scope; (group, bound definition) pairs; of which fixed-layout and in scope (covered by
         E2E_any_entry); of which their PGN is single-frame in the code (covered through the frame-by-frame entry points
         too; the others through the already-combined entry points) ---- *)
@@ -210,6 +366,20 @@ Definition covered_all : list (list dbdef * dbdef) :=
   flat_map (fun g => if in_scope g || negb (is_dispatched g) then map (fun d => (g, d)) (filter simple_def (bound_defs g)) else [])
            db_groups.
 Eval vm_compute in (88888%Z, length covered_all).
+(* the same for the _var theorems: pairs covered by E2E_any_entry_var; by it or E2E_undispatched_var (+ E2E_claim_var for
+   60928); of the former, single-frame in the code; of the latter, not fixed-layout; bound definitions of PGN 60928 in
+   var_def / fixed-layout *)
+Definition covered_var : list (list dbdef * dbdef) :=
+  flat_map (fun g => if in_scope g then map (fun d => (g, d)) (filter var_def (bound_defs g)) else []) db_groups.
+Definition covered_all_var : list (list dbdef * dbdef) :=
+  flat_map (fun g => if in_scope g || negb (is_dispatched g) then map (fun d => (g, d)) (filter var_def (bound_defs g)) else [])
+           db_groups.
+Eval vm_compute in
+  (88889%Z, length covered_var, length covered_all_var,
+   length (filter (fun gd => match tbl_is_fast code_fast (group_pgn (fst gd)) with Ok (Some false) => true | _ => false end) covered_var),
+   length (filter (fun gd => negb (simple_def (snd gd))) covered_all_var),
+   length (filter (fun gd => group_pgn (fst gd) =? 60928) covered_all_var),
+   length (filter (fun gd => group_pgn (fst gd) =? 60928) covered_all)).
 Eval vm_compute in
   (length db_groups, length (filter in_scope db_groups), length (flat_map bound_defs db_groups), length covered,
    length (filter (fun gd => match tbl_is_fast code_fast (group_pgn (fst gd)) with Ok (Some false) => true | _ => false end) covered)).
@@ -258,4 +428,58 @@ Proof.
     assert (A : forallb (fun d => match spec_decode SL SLB (le_int ex_data) d with Ok _ => true | _ => false end) ex_g = true)
       by (vm_compute; reflexivity).
     rewrite forallb_forall in A. specialize (A d I). rewrite E in A. discriminate.
+Qed.
+
+(* ---- non-vacuity of the _var theorems: PGN 126998 (Configuration Information: three STRING_LAU, only the first with
+        a BitOffset), the line of tests/test_decoder.py::test_STRING_LAU_parse given to decode_basic_string(line, True):
+        "2021-01-30-20:43:21.684,6,126998,1,255,19,07,01,68,65,6C,6C,6F,0c,00,77,00,F3,00,72,00,6C,00,64,00"
+        = 07 01 "hello" | 0c 00 "wórld" in UTF-16 | nothing.  The front-end model parses the text to the frame, the
+        database selects the definition, E2E_any_entry_var gives the returned message, and its body is the serialisation
+        of the message whose field values are 'hello', 'wórld', None. ---- *)
+Definition ex_vline : list Z :=
+  [50;48;50;49;45;48;49;45;51;48;45;50;48;58;52;51;58;50;49;46;54;56;52;44;54;44;49;50;54;57;57;56;44;49;44;50;53;53;44;49;57;44;
+   48;55;44;48;49;44;54;56;44;54;53;44;54;67;44;54;67;44;54;70;44;48;99;44;48;48;44;55;55;44;48;48;44;70;51;44;48;48;44;55;50;44;
+   48;48;44;54;67;44;48;48;44;54;52;44;48;48].
+Definition ex_vdata : list Z := [7; 1; 104; 101; 108; 108; 111; 12; 0; 119; 0; 243; 0; 114; 0; 108; 0; 100; 0].
+Definition ex_vg : list dbdef := match find (fun g => group_pgn g =? 126998) db_groups with Some g => g | None => [] end.
+Definition ex_vin : einput := {| e_fmt := WBasic true; e_data := ex_vline; e_win := false |}.
+Definition vtext_is (v : value) (b : list Z) : bool := match v with VText t => list_eqb Z.eqb t b | _ => false end.
+Definition ex_vtexts (m : Fields.msg) : bool :=
+  match map fl_val (m_fields m) with
+  | [a; b; VNone] => vtext_is a [104; 101; 108; 108; 111] && vtext_is b [119; 195; 179; 114; 108; 100]
+  | _ => false
+  end.
+Example E2E_var_nonvacuous :
+  exists d m', In ex_vg db_groups /\ in_scope ex_vg = true /\ In d (bound_defs ex_vg) /\
+    var_def d = true /\ simple_def d = false /\
+    parse_with (fun _ _ => true) (WBasic true) ex_vline = Ok (Some (126998, 6, 1, 255, rev ex_vdata, true)) /\
+    spec_select ex_vg (le_int ex_vdata) = Some d /\
+    spec_decode_var SL SLB SLI (le_int ex_vdata) d = Ok m' /\ ex_vtexts m' = true /\
+    step (fun _ _ => true) cfg0 init ex_vin
+    = (init, Ok (Some ({| DecoderCtl.m_pgn := 126998; DecoderCtl.m_id := bytes_of_str (Defn.d_id d);
+                          m_src := 1; m_dst := 255; m_iso := None; m_body := ser_msg m' |}, 6))).
+Proof.
+  assert (Hg : In ex_vg db_groups).
+  { unfold ex_vg. destruct (find (fun g => group_pgn g =? 126998) db_groups) as [g|] eqn:F.
+    - apply find_some in F. tauto.
+    - exfalso. vm_compute in F. discriminate. }
+  destruct (spec_select ex_vg (le_int ex_vdata)) as [d|] eqn:S; [|exfalso; vm_compute in S; discriminate].
+  pose proof (spec_select_in _ _ _ S) as I.
+  assert (A : forallb (fun d => var_def d && negb (simple_def d) && (Defn.d_pgn d =? 126998)
+                                && match spec_decode_var SL SLB SLI (le_int ex_vdata) d with Ok m => ex_vtexts m | _ => false end)
+                      ex_vg = true) by (vm_compute; reflexivity).
+  rewrite forallb_forall in A. specialize (A d I).
+  apply andb_true_iff in A. destruct A as [A At]. apply andb_true_iff in A. destruct A as [A Ap].
+  apply andb_true_iff in A. destruct A as [Av As]. apply negb_true_iff in As. apply Z.eqb_eq in Ap.
+  destruct (spec_decode_var SL SLB SLI (le_int ex_vdata) d) as [m'| |] eqn:E; try discriminate At.
+  exists d, m'. split; [exact Hg|]. split; [vm_compute; reflexivity|].
+  assert (Hd : In d (bound_defs ex_vg)).
+  { assert (B : bound_defs ex_vg = ex_vg) by (vm_compute; reflexivity). rewrite B. exact I. }
+  split; [exact Hd|]. split; [exact Av|]. split; [exact As|].
+  assert (P : parse_with (fun _ _ => true) (WBasic true) ex_vline = Ok (Some (126998, 6, 1, 255, rev ex_vdata, true)))
+    by (vm_compute; reflexivity).
+  split; [exact P|]. split; [reflexivity|]. split; [exact E|]. split; [exact At|].
+  rewrite (E2E_any_entry_var ex_vg d Hg eq_refl Hd Av (fun _ _ => true) init ex_vin 126998 6 1 255 ex_vdata true P);
+    [| vm_compute; reflexivity | discriminate | left; reflexivity | intros n Hn; discriminate | exact S].
+  unfold e2e_expected_var, e2e_expected_of. rewrite E, Ap. reflexivity.
 Qed.
